@@ -21,8 +21,10 @@ for sid in sorted(os.listdir(os.path.join(ROOT, 'seeded'))):
     rows.append('| %s | %s | %s | %s | `%s` |' % (
         sid, what, ' '.join(sorted(caught)) or '**none**',
         ' '.join(sorted(tried - caught)) or '-', mech))
-head = ('100 independently written breakages (round 1: two per property, ids '
-        '`Cxx-a/b`; round 2: three per property, ids `Cxx-r2a/b/c`), all '
+head = ('140 independently written breakages (round 1: two per property, ids '
+        '`Cxx-a/b`; round 2: three per property, ids `Cxx-r2a/b/c`; round 3, '
+        'asked for changes that need two coinciding conditions: two per '
+        'property, ids `Cxx-r3a/b`), all '
         'confirmed (apply, 176 repository tests pass, demonstration fails '
         'with / passes without). "caught by" lists every quick check that '
         'reported a VIOLATION on a scratch copy with the patch applied (the '
@@ -30,7 +32,8 @@ head = ('100 independently written breakages (round 1: two per property, ids '
         'run); "also run, silent" the others that were tried. The last '
         'column is the first mechanism the tagged check printed.\n\n'
         'First-pass result before any strengthening: round 1 36/40 caught by '
-        'the tagged check, round 2 44/60. Each miss was analysed and the '
+        'the tagged check, round 2 44/60, round 3 27/40. Each miss was '
+        'analysed and the '
         'check strengthened (never the seeded change adapted): C02 codec '
         'spelling sweep; C07 exact-byte-count and mid-line-cut mechanisms; '
         'C10 first header carrying main options, block-size padded headers; '
@@ -40,8 +43,17 @@ head = ('100 independently written breakages (round 1: two per property, ids '
         're-declared main encoding, rejected container calls, object-model '
         'writer; C08 hostile option pairs; C09 falsy invalid values, every '
         'next call after a rejection; C19 equal-hash values, option removal, '
-        'constructor keywords. After that all 100 are caught by their tagged '
-        'check.\n\n'
+        'constructor keywords; (round 3) C04 changes without files; C07 the '
+        'exact shape of the known short-read finding (own newline, at most '
+        'the declared indent) so that any other truncated yield is a '
+        'violation; C08 all-digit codec aliases; C09 codec names that resolve '
+        'but cannot be written to the ASCII header; C10 CRLF files, more '
+        'block-boundary paddings, re-iteration of one reader; C11 / C12 '
+        'headers on block boundaries in LF and CRLF files, option names that '
+        'collide with reader internals; C14 sign-flipped body lines; C15 '
+        'consecutive sections sharing line_endings but not the codec; C17 '
+        'headers > 4 kB; C20 CRLF delta / literal lines. After that all 140 '
+        'are caught by their tagged check.\n\n'
         '| id | change | caught by | also run, silent | first mechanism (tagged check) |\n'
         '|---|---|---|---|---|\n')
 mut = json.load(open(os.path.join(ROOT, 'mutants', 'index.json')))
